@@ -97,6 +97,11 @@ func (h *inFlightRequestsHandler) onOutgoingFrameEnqueued(f *frame.Frame) (InFli
 			return inFlight, nil
 		}
 	}
+	if managedStreamId {
+		// the request was refused after a stream id was borrowed for it: give the id back, otherwise it is lost forever
+		_ = h.releaseStreamId(streamId)
+		f.Header.StreamId = ManagedStreamId
+	}
 	return nil, err
 }
 
